@@ -1,0 +1,13 @@
+//go:build verif
+
+// Contracts for package aztec/decoder, read by the govc verification-condition generator in /verif.
+// Comments only.
+
+package decoder
+
+// getEncodedData / HighLevelDecode (C06, partial): for every bit sequence, the result buffer is allocated with a valid capacity and
+// a designator for an unregistered ECI is refused before the (absent) registry entry is used
+//@ func (this *Decoder) getEncodedData(correctedBits []bool) (r string, e error)
+//@   property C06
+//@   opt check=asserts,safety.make
+//@   assert call(GetCharset,0): charsetECI != nil
